@@ -903,6 +903,102 @@ static plan::Plan genC16(uint64_t seed, const std::string& tier) {
   return p;
 }
 
+// ---- c16v: conditional variants of one circuit/name that carry different levels; cached listings and listen mode ----
+static plan::Plan genC16v(uint64_t seed, const std::string& tier) {
+  Rng r(seed);
+  plan::Plan p;
+  addCommonCfg(&p, r, seed, "c16v", false);
+  // (the main loop resolves conditions with its first task run, 6 s after the start: the clients come later)
+  p.add("cfg minms=16000 maxms=120000");
+  static const char* pool[] = {"install", "inst", "stall", "installer", "a", "aa", "ab", "b"};
+  std::string level = pool[r.below(8)];
+  // users: one that holds the level, one that holds look-alikes only
+  std::string other;
+  for (int q = 0; q < 2; q++) { std::string l = pool[r.below(8)]; if (l != level && other.find(l) == std::string::npos) other += (other.empty() ? "" : ";") + l; }
+  std::string sec0 = "pw" + std::to_string(r.below(1000)), sec1 = "pw" + std::to_string(r.below(1000));
+  { std::string line = "admin," + sec0 + "," + level + (r.chance(0.3) ? ",service" : ""); p.add("acl l=" + hx(line)); p.add("user name=admin secret=" + sec0 + " levels=" + level); }
+  { std::string line = "guest," + sec1; for (size_t i = 0; i <= other.size();) { size_t j = other.find(';', i); if (j == std::string::npos) j = other.size(); if (j > i) line += "," + other.substr(i, j - i); i = j + 1; }
+    p.add("acl l=" + hx(line)); p.add("user name=guest secret=" + sec1 + " levels=" + (other.empty() ? "-" : other)); }
+  std::string deflv;
+  if (r.chance(0.3)) { deflv = r.chance(0.3) ? level : std::string(pool[r.below(8)]); addArg(&p, "--accesslevel=" + deflv); }
+  p.add("user name=* secret=- levels=" + (deflv.empty() ? "-" : deflv));
+  // the referenced message and the two variants; which one comes first in the file and which one is active are seeded
+  bool protFirst = r.chance(0.5), protActive = r.chance(0.65);
+  uint8_t sb = static_cast<uint8_t>(0x09 + r.below(3));
+  char buf[300];
+  snprintf(buf, sizeof(buf), "r,heat,variant,,,08,b5%02x,0d00,value,,UCH", sb);
+  p.add("csv l=" + hx(buf));
+  p.add("csv l=" + hx("*[va],heat,variant,,,,1"));
+  p.add("csv l=" + hx(r.chance(0.5) ? "*[vb],heat,variant,,,,2" : "*[vb],heat,variant,,,,>=2"));
+  std::string lopen, lprot;
+  snprintf(buf, sizeof(buf), "[va]r,heat,temp,,,08,b5%02x,0d0100,vopen,,UCH", sb); lopen = buf;
+  snprintf(buf, sizeof(buf), "[vb]r,heat#%s,temp,,,08,b5%02x,0d0200,vprot,,UCH", level.c_str(), sb); lprot = buf;
+  p.add("csv l=" + hx(protFirst ? lprot : lopen));
+  p.add("csv l=" + hx(protFirst ? lopen : lprot));
+  snprintf(buf, sizeof(buf), "slave zz=0x08 pb=0xb5 sb=0x%02x id=0d00 len=1 gen=const val=%d", sb, protActive ? 2 : 1); p.add(buf);
+  snprintf(buf, sizeof(buf), "slave zz=0x08 pb=0xb5 sb=0x%02x id=0d0100 len=1 gen=small", sb); p.add(buf);
+  snprintf(buf, sizeof(buf), "slave zz=0x08 pb=0xb5 sb=0x%02x id=0d0200 len=1 gen=small", sb); p.add(buf);
+  snprintf(buf, sizeof(buf), "variant level=%s active=%s sb=0x%02x", level.c_str(), protActive ? "prot" : "open", sb); p.add(buf);
+  // some more definitions around them
+  std::vector<MsgDef> defs = randomDefs(r, 1 + static_cast<int>(r.below(3)), {level}, false, false);
+  for (auto& m : defs) { if (m.write) continue; emitMsg(&p, m); }
+  // client 0 holds the level and fills the cache early
+  int cid = 0;
+  p.add("client id=0 at=" + std::to_string(8000 + r.below(300)));
+  addCmd(&p, r, 0, "auth admin " + sec0, "tag=auth user=admin secret=" + sec0);
+  addCmd(&p, r, 0, "read -f -c heat variant", "tag=variant kind=refread");
+  addCmd(&p, r, 0, "read -f -v -c heat temp", "tag=variant kind=readforce");
+  if (r.chance(0.5)) addCmd(&p, r, 0, "find -v -d temp", "tag=variant kind=find");
+  cid++;
+  int nclients = 1 + static_cast<int>(r.below(3));
+  int n = tier == "thorough" ? 5 + static_cast<int>(r.below(10)) : 3 + static_cast<int>(r.below(5));
+  for (int c = 0; c < nclients; c++) {
+    int who = static_cast<int>(r.below(4));   // 0: nobody, 1: guest, 2: admin, 3: guest with wrong secret
+    if (r.chance(0.25)) {
+      // HTTP: one request per connection
+      for (int k = 0; k < 2; k++) {
+        p.add("client id=" + std::to_string(cid) + " http=1 at=" + std::to_string(9500 + r.below(3000)));
+        std::string q = r.chance(0.6) ? "verbose" : "";
+        std::string uname = "-", secret = "-";
+        if (who == 1) { uname = "guest"; secret = sec1; } else if (who == 2) { uname = "admin"; secret = sec0; } else if (who == 3) { uname = "admin"; secret = "wrong"; }
+        if (uname != "-") q += (q.empty() ? "" : "&") + std::string("user=") + uname + "&secret=" + secret;
+        if (r.chance(0.3)) q += (q.empty() ? "" : "&") + std::string("exact");
+        static const char* uris[] = {"/data/heat/temp", "/data/heat", "/data", "/data/heat/tem"};
+        std::string req = std::string("GET ") + uris[r.below(4)] + (q.empty() ? "" : "?" + q) + " HTTP/1.1\r\n\r\n";
+        addCmd(&p, r, cid, req, "tag=variant kind=http user=" + uname + " secret=" + secret, false);
+        cid++;
+      }
+      continue;
+    }
+    p.add("client id=" + std::to_string(cid) + " at=" + std::to_string(9000 + r.below(2500)));
+    if (who == 1) addCmd(&p, r, cid, "auth guest " + sec1, "tag=auth user=guest secret=" + sec1);
+    else if (who == 2) addCmd(&p, r, cid, "auth admin " + sec0, "tag=auth user=admin secret=" + sec0);
+    else if (who == 3) addCmd(&p, r, cid, "auth admin wrong", "tag=auth user=admin secret=wrong");
+    if (r.chance(0.3)) {
+      // a listening connection: updates are pushed to it as long as it lives
+      addCmd(&p, r, cid, r.chance(0.7) ? "listen -v" : "listen -V", "tag=variant kind=listen");
+      p.add("cmd client=" + std::to_string(cid) + " text=" + hx("listen stop") + " gap=100 think=" + std::to_string(5000 + r.below(2000)) + " pipe=0 crlf=0 tag=none");
+      cid++;
+      continue;
+    }
+    for (int k = 0; k < n; k++) {
+      int what = static_cast<int>(r.below(10));
+      if (what < 2) addCmd(&p, r, cid, "read -f -c heat variant", "tag=variant kind=refread");
+      else if (what < 5) addCmd(&p, r, cid, std::string("read -f ") + (r.chance(0.8) ? "-v " : "-V ") + (r.chance(0.7) ? "-c heat " : "") + "temp", "tag=variant kind=readforce");
+      else if (what < 7) addCmd(&p, r, cid, std::string("read ") + (r.chance(0.5) ? "-m 86400 " : "") + "-v -c heat temp", "tag=variant kind=read");
+      else if (what < 9) addCmd(&p, r, cid, std::string("find -v -d ") + (r.chance(0.5) ? "-c heat " : "") + (r.chance(0.7) ? "temp" : ""), "tag=variant kind=find");
+      else addCmd(&p, r, cid, std::string("find -v ") + (r.chance(0.5) ? "-r " : "") + "temp", "tag=variant kind=find");
+    }
+    cid++;
+  }
+  // the holder of the level keeps the protected value fresh while the others are connected
+  p.add("client id=" + std::to_string(cid) + " at=" + std::to_string(10000 + r.below(1500)));
+  addCmd(&p, r, cid, "auth admin " + sec0, "tag=auth user=admin secret=" + sec0);
+  for (int k = 0; k < 3; k++) p.add("cmd client=" + std::to_string(cid) + " text=" + hx("read -f -v -c heat temp") + " gap=100 think=" + std::to_string(600 + r.below(900)) + " pipe=0 crlf=0 tag=variant kind=readforce");
+  for (int i = 0; i < 60; i++) p.add("react ack1=A resp1=G");
+  return p;
+}
+
 // ---- c18m: MQTT topics built from a seeded template arrive with /get, /set, /list ----
 static plan::Plan genC18m(uint64_t seed, const std::string& tier) {
   Rng r(seed);
@@ -1177,6 +1273,7 @@ struct Reg {
     hz::registerFamily(hz::Family{"c09s", "l3", genC09s, "chained read in a slow round: main loop stalled between the parts"});
     hz::registerFamily(hz::Family{"c09f", "l3", genC09f, "reads with master side parameters and selection of one field by name and index"});
     hz::registerFamily(hz::Family{"c16", "l3", genC16, "access levels: interleaved TCP/HTTP sessions, ACL with overlapping level names"});
+    hz::registerFamily(hz::Family{"c16v", "l3", genC16v, "access levels: conditional variants of one circuit/name with different levels; cached listings, HTTP /data, listen mode"});
     hz::registerFamily(hz::Family{"c20s", "l3", genC20s, "enhanced adapter, foreign traffic, bus thread stalled around the arbitration of client requests"});
     hz::registerFamily(hz::Family{"c20", "l3", genC20, "garbage on TCP, HTTP and bus, then valid probes"});
   }
